@@ -153,6 +153,7 @@ package routine
 //@   opt frame = skip
 //@   requires k != nil && broadcast != nil
 //@   opt breaks = S1 S2
+//@   ensures noexit: k.routine == old(k.routine) && k.routine != nil && k.routine.exited ==> old(k.routine.exited)
 //@   requires owned: scof(k) != nil ==> (routine != nil ==> rst(routine) == cast(scof(k), StateRoutineContainer).s && cast(scof(k), StateRoutineContainer).s != zero()) && (routine == nil ==> cast(scof(k), StateRoutineContainer).stateRoutine == nil || cast(scof(k), StateRoutineContainer).s == zero())
 //
 //@ func (*RoutineContainer).SetContext
@@ -176,6 +177,7 @@ package routine
 //@   opt holds = bcast.mtx
 //@   opt frame = skip
 //@   requires k != nil
+//@   ensures noexit: k.routine == old(k.routine) && (k.routine != nil ==> k.routine.exited == old(k.routine.exited))
 //
 //@ func (*RoutineContainer).RestartRoutine
 //@   props C04 C14
@@ -241,6 +243,7 @@ package routine
 //@   opt frame = skip
 //@   opt pure-callbacks = compare
 //@   requires s != nil && s.rc != nil && broadcast != nil && scof(s.rc) == s
+//@   ensures noexit: s.rc.routine == old(s.rc.routine) && s.rc.routine != nil && s.rc.routine.exited ==> old(s.rc.routine.exited)
 //
 //@ func (*StateRoutineContainer).SwapValue
 //@   props C04 C05
